@@ -13,14 +13,16 @@ CLAIMED = {
     "C12": dict(
         text="Proof (Verus, per public mutator of the real Allocator): counts() moves exactly as the statement's reference model for "
              "every operation and every state satisfying the representation invariant; since each operation preserves the invariant, "
-             "every finite history does. Known finding F1 (new_substr on an inline parent) is carved out by a relaxed clause and kept "
-             "visible by a strict twin that must fail.",
+             "every finite history does. Known finding F1 (new_substr on an inline parent charges the slice to the heap although substrings "
+             "are documented to share their parent's bytes) is carved out by a relaxed clause and kept visible by a strict twin that must fail.",
         note=TB_COMMON + "History composition is the standard data-structure-invariant argument (not mechanised as a separate theorem).",
         tech="contract-based deductive verification (Verus) of extracted real functions; data-structure invariant + whole-view postconditions",
         ref="4/C12"),
     "C13": dict(
         text="Proof (Verus): every mutator preserves inv() (atom/pair caps) and capped() (heap cap) and fails exactly when the cap would be "
-             "exceeded, leaving every field's abstract value unchanged on failure. Same carve-out F1 as C12.",
+             "exceeded, leaving every field's abstract value unchanged on failure; the BLS constructors and caches (new_g1/g2, validate_g1/g2) "
+             "included. The missing limit check of new_substr on an inline parent (formerly part of F1; it also made ENABLE_GC observable, "
+             "C04) was repaired by a fix: commit, so the heap-cap clause holds for every mutator without a carve-out.",
         note=TB_COMMON + "Precondition recorded: nodes passed in are valid nodes of this allocator.",
         tech="contract-based deductive verification (Verus); exact failure conditions as iff-postconditions",
         ref="4/C13"),
@@ -33,7 +35,11 @@ CLAIMED = {
         ref="4/C14"),
     "C25": dict(
         text="Proof (Verus) for the functions under contract: every assert!/debug_assert!/unwrap/index/cast/arithmetic site in the verified "
-             "text is a discharged obligation; functions not under contract are listed in evidence and are outside the claim.",
+             "text is a discharged obligation. All 48 operator functions ChiaDialect dispatches to are under contract and each is PROVED to "
+             "meet the generic operator contract the interpreter loop relies on (allocator only grows, valid result, bounded cost, no "
+             "InternalError, heap cap kept), so run_program's totality no longer rests on assumed operator behaviour (budgets <= 2^62). "
+             "Functions not under contract (serializers with back-references, interning, the Python/WASM bindings) are listed in evidence and "
+             "are outside the claim.",
         note=TB_COMMON + "Claim covers only the functions listed in evidence.functions_under_contract.",
         tech="contract-based deductive verification (Verus); built-in panic-freedom obligations",
         ref="4/C25"),
